@@ -234,11 +234,7 @@ Proof.
   apply fea_none_last. intros o Ho. apply xops_In in Ho as [Ho1 Ho2]. now apply Hl.
 Qed.
 
-Lemma effk_time H k d :
-  effk H k = Some d -> (exists o, In o H /\ h_d o = Some d /\ h_b k <= h_b o).
-Proof.
-  rewrite effk_unfold. destruct (h_o k) eqn:Eo; try (intro E; exists k; repeat split; auto; lia).
-Abort.
+
 
 (* ------------------------------------------------------------------ *)
 (** * Views of a transition *)
